@@ -158,6 +158,14 @@ def offsets_oracle(ctx):
         if not ob.ok or ob.value != want2:
             return Failure("C14/rawcopy/build-offsets-nested", "observing struct built from value inside an outer RawCopy at offset %d: built %r, expected %s | spec=%s value=%s" % (
                 base, ob, want2.hex(), short(spec, 400), short(value)))
+        # built into a stream that already holds (longer) content, as when a region is back-patched: the report covers what was
+        # written, not what happens to lie behind it
+        pre_filled = io.BytesIO(b"\xee" * (len(want) + 9))
+        pf = call(con.build_stream, obj, pre_filled, **params)
+        got_pf = pre_filled.getvalue()[:len(want)]
+        ctx.record([case, "prefilled"], True, ["offsets/prefilled-stream"])
+        if not pf.ok or got_pf != want:
+            return Failure("C14/rawcopy/build-into-prefilled", "build_stream into a stream that already holds bytes: wrote %s, expected %s (%r) | spec=%s" % (got_pf.hex(), want.hex(), pf, short(spec, 400)))
         # a record PARSED somewhere else and re-used for building: what is reported describes this build, not the old parse
         shifted = C.Struct("junk" / C.Bytes(len(pre) + 2), "rc" / C.RawCopy(inner))
         ps = call(shifted.parse, b"zz" + pre + ib.value, **params)
